@@ -31,6 +31,38 @@ struct Shared {
     in_handler: AtomicBool,
     handled: AtomicU64,
     cell: Mutex<Option<ActorCell>>,
+    /// gate in `post_stop`: when armed, a gracefully exiting actor parks there — status `Stopping`,
+    /// children still linked, `cleanup` not yet run
+    hold: AtomicBool,
+    in_ps: AtomicBool,
+    ps_gate: Semaphore,
+}
+
+impl Shared {
+    fn new() -> Arc<Shared> {
+        Arc::new(Shared {
+            gate: Semaphore::new(0),
+            in_handler: AtomicBool::new(false),
+            handled: AtomicU64::new(0),
+            cell: Mutex::new(None),
+            hold: AtomicBool::new(false),
+            in_ps: AtomicBool::new(false),
+            ps_gate: Semaphore::new(0),
+        })
+    }
+    async fn post_stop(&self) {
+        if self.hold.load(Ordering::SeqCst) {
+            self.in_ps.store(true, Ordering::SeqCst);
+            struct Leave<'a>(&'a AtomicBool);
+            impl Drop for Leave<'_> {
+                fn drop(&mut self) {
+                    self.0.store(false, Ordering::SeqCst);
+                }
+            }
+            let _leave = Leave(&self.in_ps);
+            self.ps_gate.acquire().await.unwrap().forget();
+        }
+    }
 }
 
 struct Node(Arc<Shared>);
@@ -61,6 +93,10 @@ impl Actor for Node {
             NodeMsg::Fail => Err("scripted failure".into()),
             NodeMsg::Panic => panic!("scripted panic"),
         }
+    }
+    async fn post_stop(&self, _me: ActorRef<Self::Msg>, _s: &mut ()) -> Result<(), ActorProcessingErr> {
+        self.0.post_stop().await;
+        Ok(())
     }
     async fn handle_supervisor_evt(
         &self,
@@ -107,6 +143,10 @@ impl ThreadLocalActor for LNode {
             NodeMsg::Panic => panic!("scripted panic"),
         }
     }
+    async fn post_stop(&self, _me: ActorRef<Self::Msg>, sh: &mut Self::State) -> Result<(), ActorProcessingErr> {
+        sh.post_stop().await;
+        Ok(())
+    }
     async fn handle_supervisor_evt(
         &self,
         _me: ActorRef<Self::Msg>,
@@ -138,6 +178,10 @@ enum Op {
     Fail(usize),
     Panic(usize),
     Abort(usize),
+    /// arm the gate in the actor's `post_stop`
+    Hold(usize),
+    /// open it: `post_stop` returns and `cleanup` runs
+    PsRelease(usize),
 }
 
 impl Op {
@@ -156,6 +200,8 @@ impl Op {
             Op::Fail(a) => format!("fail {a}"),
             Op::Panic(a) => format!("panic {a}"),
             Op::Abort(a) => format!("abort {a}"),
+            Op::Hold(a) => format!("hold {a}"),
+            Op::PsRelease(a) => format!("psrelease {a}"),
         }
     }
     fn parse(s: &str) -> Option<Op> {
@@ -175,6 +221,8 @@ impl Op {
             "fail" => Op::Fail(n(1)?),
             "panic" => Op::Panic(n(1)?),
             "abort" => Op::Abort(n(1)?),
+            "hold" => Op::Hold(n(1)?),
+            "psrelease" => Op::PsRelease(n(1)?),
             _ => return None,
         })
     }
@@ -236,19 +284,15 @@ impl World {
                     && self.nodes[*a].cell.get_status() == ractor::ActorStatus::Running
             }
             Op::Abort(a) => ok(a) && self.nodes[*a].handle.is_some(),
-            Op::Block(a) | Op::Drain(a) | Op::Stop(a) | Op::Kill(a) => ok(a),
+            Op::Block(a) | Op::Drain(a) | Op::Stop(a) | Op::Kill(a) | Op::Hold(a) => ok(a),
+            Op::PsRelease(a) => ok(a) && self.nodes[*a].sh.in_ps.load(Ordering::SeqCst),
         }
     }
 
     async fn exec(&mut self, op: &Op) -> String {
         let r = match op {
             Op::SpawnLT(p, fail) => {
-                let sh = Arc::new(Shared {
-                    gate: Semaphore::new(0),
-                    in_handler: AtomicBool::new(false),
-                    handled: AtomicU64::new(0),
-                    cell: Mutex::new(None),
-                });
+                let sh = Shared::new();
                 let spawner = self.spawner.get_or_insert_with(ThreadLocalActorSpawner::new).clone();
                 let res = self.nodes[*p].cell.spawn_local_linked::<LNode>(None, (sh.clone(), *fail), spawner).await;
                 let cell = sh.cell.lock().unwrap().clone();
@@ -269,12 +313,7 @@ impl World {
                 }
             }
             Op::Spawn | Op::SpawnL(_) => {
-                let sh = Arc::new(Shared {
-                    gate: Semaphore::new(0),
-                    in_handler: AtomicBool::new(false),
-                    handled: AtomicU64::new(0),
-                    cell: Mutex::new(None),
-                });
+                let sh = Shared::new();
                 let res = match op {
                     Op::SpawnL(p) => Actor::spawn_linked(None, Node(sh.clone()), (), self.nodes[*p].cell.clone()).await,
                     _ => Actor::spawn(None, Node(sh.clone()), ()).await,
@@ -324,6 +363,14 @@ impl World {
                 if let Some(h) = &self.nodes[*a].handle {
                     h.abort();
                 }
+                "unit".into()
+            }
+            Op::Hold(a) => {
+                self.nodes[*a].sh.hold.store(true, Ordering::SeqCst);
+                "unit".into()
+            }
+            Op::PsRelease(a) => {
+                self.nodes[*a].sh.ps_gate.add_permits(1);
                 "unit".into()
             }
         };
@@ -383,7 +430,29 @@ impl World {
         let pick_parent = |rng: &mut Rng| if parents.is_empty() || rng.chance(1, 3) { pick_live(rng) } else { *rng.pick(&parents) };
         for _ in 0..50 {
             let r = rng.below(100);
-            let op = if live.is_empty() && n < 14 && r < 70 {
+            // a supervisor parked in `post_stop` (Stopping, children not yet taken): work on its children
+            let held: Vec<usize> = (0..n).filter(|i| self.nodes[*i].sh.in_ps.load(Ordering::SeqCst)).collect();
+            let op = if !held.is_empty() && rng.chance(1, 3) {
+                let h = *rng.pick(&held);
+                let kids: Vec<usize> =
+                    self.nodes[h].cell.get_children().iter().filter_map(|c| self.ids.get(&c.get_id()).copied()).collect();
+                let q = rng.below(100);
+                if !kids.is_empty() && q < 40 {
+                    Op::Link(*rng.pick(&kids), pick_live(rng))
+                } else if !kids.is_empty() && q < 52 {
+                    Op::Unlink(*rng.pick(&kids), h)
+                } else if !kids.is_empty() && q < 62 {
+                    Op::Kill(*rng.pick(&kids))
+                } else if q < 72 {
+                    Op::SpawnL(h)
+                } else if q < 90 {
+                    Op::PsRelease(h)
+                } else if q < 95 {
+                    Op::Kill(h)
+                } else {
+                    Op::Abort(h)
+                }
+            } else if live.is_empty() && n < 14 && r < 70 {
                 Op::Spawn
             } else if r < 36 && n < 14 {
                 // grow: deep chains up to depth 5
@@ -404,15 +473,20 @@ impl World {
                 Op::Link(c, p)
             } else if r < 54 {
                 Op::Unlink(any(rng), any(rng))
-            } else if r < 69 {
+            } else if r < 65 {
                 Op::Block(pick_live(rng))
+            } else if r < 69 {
+                // arm the post_stop gate of a supervisor, and (half of the time) stop it right away
+                Op::Hold(pick_parent(rng))
             } else if r < 77 {
                 if busy.is_empty() { Op::Release(any(rng)) } else { Op::Release(*rng.pick(&busy)) }
             } else if r < 85 {
                 // drain: mostly busy nodes (Draining with a backlog); an idle node drains and exits at once
                 if !busy.is_empty() && rng.chance(5, 6) { Op::Drain(*rng.pick(&busy)) } else if rng.chance(1, 3) { Op::Drain(pick_live(rng)) } else { Op::Block(pick_live(rng)) }
             } else if r < 89 {
-                Op::Stop(pick_parent(rng))
+                // prefer supervisors whose post_stop gate is armed
+                let armed: Vec<usize> = live.iter().copied().filter(|i| self.nodes[*i].sh.hold.load(Ordering::SeqCst)).collect();
+                if !armed.is_empty() && rng.chance(2, 3) { Op::Stop(*rng.pick(&armed)) } else { Op::Stop(pick_parent(rng)) }
             } else if r < 94 {
                 Op::Kill(pick_parent(rng))
             } else if r < 96 {
@@ -462,6 +536,7 @@ async fn run_case(script: Script) -> Vec<(String, String)> {
     // tidy up
     for n in &w.nodes {
         n.sh.gate.add_permits(1000);
+        n.sh.ps_gate.add_permits(1000);
         n.cell.kill();
     }
     quiesce().await;
@@ -497,6 +572,13 @@ fn fixed_cases() -> Vec<Vec<Op>> {
         // a child draining a backlog while its supervisor goes away (finding F1 on the pinned code)
         vec![Spawn, SpawnL(0), Block(1), Block(1), Drain(1), Kill(0), Release(1), Release(1)],
         vec![Spawn, SpawnL(0), SpawnL(1), Block(1), Drain(1), Stop(0), Release(1)],
+        // a supervisor parked in post_stop (Stopping, children not yet taken)
+        vec![Spawn, Spawn, SpawnL(0), Hold(0), Stop(0), Link(2, 1), PsRelease(0)],
+        vec![Spawn, Spawn, SpawnL(0), SpawnL(2), Hold(0), Drain(0), Link(2, 1), Link(2, 0), SpawnL(0), PsRelease(0)],
+        vec![Spawn, SpawnL(0), SpawnL(1), Hold(1), Stop(1), Kill(0), PsRelease(1)],
+        vec![Spawn, SpawnL(0), SpawnL(0), Hold(0), Stop(0), Unlink(1, 0), Kill(2), Kill(0)],
+        vec![Spawn, SpawnL(0), Hold(0), Block(0), Stop(0), Drain(0), Release(0), Stop(0), Drain(0), Abort(0)],
+        vec![Spawn, Spawn, SpawnL(0), Hold(0), Hold(1), Stop(0), Stop(1), Link(2, 1), PsRelease(1), PsRelease(0)],
         // thread-local children: linked before pre_start
         vec![Spawn, SpawnLT(0, false), SpawnLT(1, false), Kill(0)],
         vec![Spawn, SpawnLT(0, true), SpawnLT(0, false), Stop(0)],
